@@ -215,7 +215,7 @@ func Run(guard time.Duration) (hung bool) {
 //
 //go:norace
 func ParkedInSelect(id int) bool {
-	return s.threads[id].state == tPending && s.threads[id].op.kind == KSelect
+	return s.threads[id].state == tPending && s.threads[id].op.kind == KSelect && hasRealCase(&s.threads[id].op)
 }
 
 // EverParked reports whether thread id was ever found waiting on a select with no ready case.
@@ -342,6 +342,16 @@ func opName(o *op) string {
 // ---------------------------------------------------------------- enabledness
 
 //go:norace
+func hasRealCase(o *op) bool {
+	for i := 0; i < o.nsel; i++ {
+		if o.sel[i].obj == 0 {
+			return true
+		}
+	}
+	return false
+}
+
+//go:norace
 func pollReal(c <-chan struct{}) bool {
 	select {
 	case <-c:
@@ -443,7 +453,10 @@ func schedule() {
 			if enabled(t) {
 				d.Enabled[d.N] = int8(i)
 				d.N++
-			} else if t.op.kind == KSelect {
+			} else if t.op.kind == KSelect && hasRealCase(&t.op) {
+				// a parked waiter: it waits in a select that also watches its context. (Waiting for
+				// the barrier token, with or without a select around the receive, is mutual
+				// exclusion, not parking.)
 				t.blocked = true
 			}
 		}
